@@ -191,8 +191,6 @@ def build() -> Check:
             n_li += len(evs_)
             if t.outcome != "return":
                 continue
-            if not evs_:
-                badl.append(f"{mname} builds no logger from a LogInfo")
             for e in evs_:
                 info = e.data["info"]
                 pid_ = info.fields.get("parent_id", NONE).key() if isinstance(info, Obj) else "?"
@@ -353,8 +351,8 @@ def build() -> Check:
                         tg = x.target if isinstance(x, ast.AnnAssign) else x.targets[0]
                         if isinstance(tg, ast.Attribute) and tg.attr == a and isinstance(tg.value, ast.Name) and tg.value.id == "self":
                             rhs = x.value
-                    if isinstance(x, ast.AugAssign) and isinstance(x.target, ast.Attribute) and x.target.attr == a:
-                        rhs = x.value
+                    if isinstance(x, ast.AugAssign) and isinstance(x.target, ast.Attribute) and x.target.attr == a and not isinstance(x.op, (ast.Sub, ast.BitAnd)):
+                        rhs = x.value  # (a -= / &= only shrinks the set)
                     if isinstance(x, ast.Call) and isinstance(x.func, ast.Attribute) and x.func.attr in ("update", "add", "extend", "append") \
                             and isinstance(x.func.value, ast.Attribute) and x.func.value.attr == a and x.args:
                         rhs = x.args[0]
@@ -415,9 +413,17 @@ def build() -> Check:
         ("completed context C (holding s) and a later completed step b; only C is passed", [("C", "CONTEXT", "SUCCEEDED", None), ("s", "STEP", "SUCCEEDED", "C"), ("b", "STEP", "SUCCEEDED", None)], [], "C", False),
     ]
     bad6 = []
+    undecided6 = []
     for label, hist, before, visit, want_new in SCEN:
         def sf(it, state, hist=hist, before=before):
-            o = Obj(sc_, label="st")
+            # built by its own __init__ (so that whatever bookkeeping it sets up exists), then given the scenario's history
+            from sa.protocol import make_real_state
+            it.nofork += 1
+            try:
+                o = make_real_state(it, prog)
+            finally:
+                it.nofork -= 1
+            it.events.clear()
             o.fields.update(operations=DictVal({h[0]: mkop(*h) for h in hist}), _visited_operations=SeqVal("set", [Const(b_) for b_ in before]),
                             _replay_status=EnumVal(rs_.fq, "REPLAY", rs_.enum_members["REPLAY"]))
             for n_ in ast.walk(tr_.node):
@@ -432,9 +438,13 @@ def build() -> Check:
         for t in trs:
             to_new = any(e.kind == "SETATTR" and e.data["attr"] == "_replay_status" and "NEW" in str(e.data.get("value")) for e in t.events)
             outcomes.add(to_new if t.outcome == "return" else f"raises {t.exc_class()}")
-        if outcomes != {want_new}:
+        if outcomes == {True, False}:
+            undecided6.append(label)
+        elif outcomes != {want_new}:
             bad6.append(f"{label}: the logger {'must be un-muted' if want_new else 'must stay muted'}, analysis finds {sorted(map(str, outcomes))}")
     ck.floor("replay_boundary_scenarios", len(SCEN), 10)
+    if undecided6:
+        ck.undecided_rule(f"R6.boundary-on-small-histories: the replay boundary depends on state the scenarios do not determine ({len(undecided6)}/{len(SCEN)} scenarios fork)")
     ck.ob("R6.boundary-on-small-histories", fn_construct(tr_), not bad6, f"{len(bad6)}/{len(SCEN)}: " + "; ".join(bad6[:2]) if bad6 else f"{len(SCEN)} scenarios")
     return ck
 
